@@ -130,11 +130,19 @@ pub fn gen_script(rng: &mut Rng, total: usize, intr: bool) -> Vec<Step> {
 /// Records everything a `Sink` is told, in a canonical textual form.
 pub struct RecSink {
     pub ev: Vec<String>,
+    /// answer `Ok(false)` at the callback with this index (`begin` is callback 0)
+    pub stop_at: Option<usize>,
 }
 
 impl RecSink {
     pub fn new() -> RecSink {
-        RecSink { ev: vec![] }
+        RecSink { ev: vec![], stop_at: None }
+    }
+    pub fn stopping(k: Option<usize>) -> RecSink {
+        RecSink { ev: vec![], stop_at: k }
+    }
+    fn go(&self) -> bool {
+        Some(self.ev.len() - 1) != self.stop_at
     }
 }
 
@@ -146,7 +154,7 @@ impl Sink for RecSink {
     type Error = io::Error;
     fn matched(&mut self, _s: &Searcher, m: &SinkMatch<'_>) -> Result<bool, io::Error> {
         self.ev.push(format!("m {} {} {}", m.absolute_byte_offset(), ln(m.line_number()), hex(m.bytes())));
-        Ok(true)
+        Ok(self.go())
     }
     fn context(&mut self, _s: &Searcher, c: &SinkContext<'_>) -> Result<bool, io::Error> {
         let k = match c.kind() {
@@ -155,19 +163,19 @@ impl Sink for RecSink {
             SinkContextKind::Other => "O",
         };
         self.ev.push(format!("c{} {} {} {}", k, c.absolute_byte_offset(), ln(c.line_number()), hex(c.bytes())));
-        Ok(true)
+        Ok(self.go())
     }
     fn context_break(&mut self, _s: &Searcher) -> Result<bool, io::Error> {
         self.ev.push("--".into());
-        Ok(true)
+        Ok(self.go())
     }
     fn binary_data(&mut self, _s: &Searcher, off: u64) -> Result<bool, io::Error> {
         self.ev.push(format!("bin {}", off));
-        Ok(true)
+        Ok(self.go())
     }
     fn begin(&mut self, _s: &Searcher) -> Result<bool, io::Error> {
         self.ev.push("begin".into());
-        Ok(true)
+        Ok(self.go())
     }
     fn finish(&mut self, _s: &Searcher, f: &SinkFinish) -> Result<(), io::Error> {
         self.ev.push(format!("finish {} {}", f.byte_count(), ln(f.binary_byte_offset())));
